@@ -76,6 +76,14 @@ Theorem C07_integral_statement_refuted : ~ C07_integral_statement.
 Proof. exact integral_statement_refuted. Qed.
 Print Assumptions C07_integral_statement_refuted.
 
+Theorem C07_initial_statement_refuted : ~ C07_initial_statement.
+Proof. exact initial_statement_refuted. Qed.
+Print Assumptions C07_initial_statement_refuted.
+
+Theorem C07_final_statement_refuted : ~ C07_final_statement.
+Proof. exact final_statement_refuted. Qed.
+Print Assumptions C07_final_statement_refuted.
+
 (* finding initial-head-empty-or-jump: TablePT({'A': [(0, 1), (1, 3, 'jump')]}) — initial_values 1, plays 3 *)
 Theorem C07_initial_refuted : exists p rho pcs c e x v,
   wf p = true /\ denote p rho = Some pcs /\ dget c (initial_expr p) = Some e /\ p_at0 pcs c = Some x /\
